@@ -92,7 +92,7 @@ static const unsigned users[] = {1000, 1001, 0};
 static const char *const uids[] = {"A", "B", "CC"};
 
 /* ---------------- events ---------------- */
-enum {E_ADD, E_CANCEL, E_TICK_ONTIME, E_TICK_IDLE, E_TICK_LATE, E_EXIT, E_LIST, E_SCHED, E_ADDOWN, E_ADD2};
+enum {E_ADD, E_CANCEL, E_TICK_ONTIME, E_TICK_IDLE, E_TICK_LATE, E_EXIT, E_LIST, E_SCHED, E_ADDOWN, E_ADD2, E_TICK_EXACT};
 struct ev_s {
 	int kind;
 	int user;	/* index into users[] */
@@ -160,6 +160,7 @@ evname(char *buf, size_t bsz, const struct ev_s *e)
 	case E_CANCEL: snprintf(buf, bsz, "CANCEL(%u,%s)", users[e->user], uids[e->uid]); break;
 	case E_TICK_ONTIME: snprintf(buf, bsz, "TICK(on-time)"); break;
 	case E_TICK_IDLE: snprintf(buf, bsz, "TICK(idle)"); break;
+	case E_TICK_EXACT: snprintf(buf, bsz, "TICK(exact)"); break;
 	case E_TICK_LATE: snprintf(buf, bsz, "TICK(late-%d)", e->arg); break;
 	case E_EXIT: snprintf(buf, bsz, "EXIT(%d)", e->arg); break;
 	case E_LIST: snprintf(buf, bsz, "LIST(%u%s)", users[e->user], e->arg == 1 ? " as other" : ""); break;
@@ -171,7 +172,7 @@ evname(char *buf, size_t bsz, const struct ev_s *e)
 static const char*
 evkind(const struct ev_s *e)
 {
-	static const char *const k[] = {"ADD", "CANCEL", "TICK-ontime", "TICK-idle", "TICK-late", "EXIT", "LIST", "SCHED", "ADDOWN", "ADD2"};
+	static const char *const k[] = {"ADD", "CANCEL", "TICK-ontime", "TICK-idle", "TICK-late", "EXIT", "LIST", "SCHED", "ADDOWN", "ADD2", "TICK-exact"};
 	return k[e->kind];
 }
 
@@ -196,6 +197,10 @@ enabled(struct ev_s *ev, int max)
 	}
 	if (armed && e - hx_now > 0.75) {
 		PUSH(E_TICK_IDLE);
+	}
+	if (armed && e > hx_now && prop == 4) {
+		/* wake up exactly on the second of the next occurrence: it is not due yet (strictly before) */
+		PUSH(E_TICK_EXACT);
 	}
 	if (armed && prop != 11) {
 		/* the task due first, k further occurrences */
@@ -496,6 +501,7 @@ apply(const struct ev_s *e)
 	}
 	case E_TICK_ONTIME:
 	case E_TICK_IDLE:
+	case E_TICK_EXACT:
 	case E_TICK_LATE: {
 		double to;
 		double ear = m_earliest();
@@ -504,6 +510,8 @@ apply(const struct ev_s *e)
 			if (to <= hx_now) to = hx_now + 0.001;
 		} else if (e->kind == E_TICK_IDLE) {
 			to = ear - 0.5;
+		} else if (e->kind == E_TICK_EXACT) {
+			to = ear;
 		} else {
 			to = hx_now;
 			for (int i = 0; i < M_MAXT; i++) {
